@@ -40,7 +40,8 @@ def design(rings, pd=1.20, hd=30.0, ducts=1, oftf=0.060, duct_t=0.0025,
         if d < ducts - 1:
             o = o - 2 * t - 2 * bs[ducts - 2 - d]
     iftf = ftf[0]
-    wfrac = 0.95 if wire else 0.0     # wire diameter as share of pin gap
+    # wire diameter as share of pin gap (True: 0.95; a number: that share)
+    wfrac = (0.95 if wire else 0.0) if isinstance(wire, bool) else float(wire)
     # edge clearance as a share of the pin pitch (a number is taken as it is)
     clr = {'tight': 0.0, 'loose': 0.35, 'mid': 0.12}[clearance] if isinstance(clearance, str) else float(clearance)
     # iftf = sqrt3 (n-1) pd D + D + 2 wfrac (pd-1) D + clr*pd*D + 1e-5
